@@ -1489,7 +1489,9 @@ func TestVerifC17Consensus(t *testing.T) {
 	for t, n := range perType {
 		r.Set("cases_"+t, n)
 	}
-	r.Set("cases_enumerated_total", k)
+	if r.Shard == 0 {
+		r.Set("cases_enumerated_total", k)
+	}
 	r.Set("goroutines_at_end", runtime.NumGoroutine())
 }
 
